@@ -68,6 +68,17 @@ Definition compile_expr (ty : kind) (e : lexpr) : res (Z * Z) :=
   | _ => Raise NotALiteral
   end.
 
+(* A constant that is an operand of a binary operator / comparison, an augmented assignment or an
+   argument of a generic parameter is synthesised first (no hint -> its type is fixed then) and only
+   later matched against a parameter type on ExprChecker.check's already-typed path ([check_typed],
+   generated): a constant is typed once. *)
+Definition check_operand (param : kind) (v : Z) : res kind :=
+  bind (synth_const v) (fun k => check_typed k param).
+Definition compile_operand (v : Z) : res hconst :=
+  bind (synth_const v) (fun k => Ok (literal_hugr k v)).
+Definition compile_operand_payload (v : Z) : res (Z * Z) :=
+  bind (compile_operand v) payload.
+
 (** Specification side (independent of the code). *)
 Definition in_range (ty : kind) (v : Z) : Prop :=
   match ty with
